@@ -17,13 +17,17 @@ def judge(c, iv, ia, spec, mv, ma):
             return ("each request <= size_of(largest type) x bytes present (= %d)" % (smax * n), "a single allocation request exceeds the input")
     # whole call: linear in the input for the nesting depths the campaign reaches
     if total > smax * (n + 8) * 8:
+        if c["ty"] in spec.get("arrrec", []):
+            # K11: the type is recursive through a counted array; every nesting level reserves min(count, remaining)
+            return ("KNOWN", "K11", "nested hostile counts in a type that is recursive through an unbounded counted array make every level reserve "
+                    "for the whole remaining input: total requested memory is quadratic in the input length")
         return ("total <= 8 x size_of(largest type) x (input + 8)", "total allocation is not bounded by the input")
     return None
 
 
-RULE = ("counting global allocator around every decode of the campaign (count words 2^16..2^32-1 at every counted position, prefixes, random words): "
+RULE = ("counting global allocator around every decode of the campaign (count words 2^16..2^32-1 at every counted position, prefixes, random words, one hostile word repeated at every nesting level): "
         "each request <= size_of(largest declared type) x bytes present, total <= 8 x that; the request log is also compared event by event with the model's "
-        "(Vec reservations min(count, remaining), one Box per optional link, one copy per string)")
+        "(Vec reservations min(count, remaining), one Box per optional link, one copy per string); a super-linear total on a type that is recursive through a counted array is finding K11")
 
 
 def check(rep, tier, rng):
